@@ -309,12 +309,37 @@ func runOne(t *testing.T, tr *drv.Tracer, sid int, sched []drv.Step) {
 	}
 	nodes := make([]*node, np+nb+1) // 1-based
 	var prim, fall []eth2wrap.Client
+	// lazy: every node is reached through the connect-on-first-use wrapper (app/eth2wrap/lazy.go), as NewMultiHTTP builds
+	// its nodes; connfail: nodes whose CONNECTION ATTEMPTS fail while the history calls run (the node is down) and succeed
+	// from the judged call on (it is back).
+	lazy, _ := cfg["lazy"].(bool)
+	connDown := map[int]bool{}
+	var connMu sync.Mutex
+	if l, ok := cfg["connfail"].([]any); ok && lazy {
+		for _, x := range l {
+			connDown[drv.Num(x)] = true
+		}
+	}
 	for i := 1; i <= np+nb; i++ {
 		nodes[i] = &node{id: i, variant: drv.Str(outs[i-1]), deaf: deaf[i-1], release: make(chan struct{})}
+		var cl eth2wrap.Client = nodes[i]
+		if lazy {
+			n := nodes[i]
+			cl = eth2wrap.NewLazyVerif(func(context.Context) (eth2wrap.Client, error) {
+				connMu.Lock()
+				down := connDown[n.id]
+				connMu.Unlock()
+				if down {
+					return nil, errors.Join(errors.New("failed to connect to beacon node"),
+						&url.Error{Op: "Get", URL: n.url("/eth/v1/node/version"), Err: tagErr{id: n.id, inner: syscall.ECONNREFUSED}})
+				}
+				return n, nil
+			})
+		}
 		if i <= np {
-			prim = append(prim, nodes[i])
+			prim = append(prim, cl)
 		} else {
-			fall = append(fall, nodes[i])
+			fall = append(fall, cl)
 		}
 	}
 	multi := eth2wrap.NewMultiForT(prim, fall)
@@ -425,6 +450,9 @@ func runOne(t *testing.T, tr *drv.Tracer, sid int, sched []drv.Step) {
 		}
 		t0 = time.Now()
 	}
+	connMu.Lock()
+	connDown = map[int]bool{} // every node accepts connections from here on
+	connMu.Unlock()
 	tr.Emit(drv.Step{"ev": "Reset", "sid": sid, "P": np, "B": nb, "style": style, "out": outs, "deaf": deaf, "t": 0})
 	for _, st := range sched[1:] {
 		switch drv.Str(st["ev"]) {
